@@ -37,22 +37,25 @@ uint64_t *g_t1, *g_t2; /* the state's tables */
 #define VF_IN(lo, x, hi) ((int64_t) (lo) <= (int64_t) (x) && (int64_t) (x) < (int64_t) (hi))
 
 /* ghost assignments inserted by the overlay next to the real updates */
-#define VF_G_RU(i) g_H[VF_B + (int64_t) (i) + 1] = VF_STEP(g_H[VF_B + (int64_t) (i)], b1[(i)], b2[(i)])
+#define VF_G_RU(i) g_H[VF_B + (int64_t) (i) + 1] = VF_STEP(g_H[VF_B + (int64_t) (i)], g_buf[VF_B + (int64_t) (i)], g_buf[VF_B + (int64_t) (i) - (int64_t) g_w])
 #define VF_G_RUN(i) g_H[(i) + 1] = VF_STEP(g_H[(i)], buffer[(i)], g_hist0[(i)])
 
 /* _rolling_hash2_run_until_base: scan b1[*idx .. max_idx) where b1 points INTO the buffer of this call
  * (b1 = g_buf + VF_B; since fix `fix: rolling_hash2_run ...` the caller scans in pieces), b2 = b1 - w;
  * *idx >= w, so the window lies inside the buffer.  Stream position of b1[r] is VF_B + r. */
-#define VF_POFF(p) ((int64_t) __CPROVER_POINTER_OFFSET(p))
-#define VF_B (VF_POFF(b1) - VF_POFF(g_buf))
+uint32_t g_base; /* ghost: b1 == g_buf + g_base (set by a ghost assignment before the call in _rolling_hash2_run) */
+#define VF_B ((int64_t) g_base)
 #define VF_RU_HIT ((int64_t) *idx < (int64_t) max_idx)
 #define VF_C_RUN_UNTIL                                                                             \
-        __CPROVER_requires(g_w >= 1 && g_w <= 48 && __CPROVER_same_object(b1, g_buf) && VF_B >= 0 && \
-                           b2 == b1 - g_w && t1 == g_t1 && t2 == g_t2)                             \
+        __CPROVER_requires(g_w >= 1 && g_w <= 48 && b1 == g_buf + g_base && b2 == g_buf + g_base - g_w && \
+                           t1 == g_t1 && t2 == g_t2)                                               \
         __CPROVER_requires(*idx >= g_w && *idx <= 0x7ffffffeu && VF_B + (int64_t) *idx <= (int64_t) g_len && \
                            VF_B + (int64_t) max_idx <= (int64_t) g_len)                            \
-        __CPROVER_requires(h == g_H[VF_B + *idx])                                                  \
-        __CPROVER_assigns(*idx, __CPROVER_object_from(&g_H[VF_B + *idx + 1]))                      \
+        __CPROVER_requires(h == g_H[VF_B + *idx] && g_k >= 0 && g_k <= (int64_t) g_len)            \
+        __CPROVER_assigns(*idx, __CPROVER_object_whole(g_H))                                       \
+        /* entries up to the start position keep their values (witness form; whole-object frame is cheap to havoc) */ \
+        __CPROVER_ensures((g_k >= 0 && g_k + 1 <= VF_B + (int64_t) __CPROVER_old(*idx)) ==>        \
+                          (g_H[g_k] == __CPROVER_old(g_H[g_k]) && g_H[g_k + 1] == __CPROVER_old(g_H[g_k + 1]))) \
         __CPROVER_ensures(*idx >= __CPROVER_old(*idx) &&                                           \
                           (int64_t) *idx <= VF_MAXI((int64_t) __CPROVER_old(*idx), (int64_t) max_idx)) \
         /* stopped early  <=>  the masked bits matched at *idx (the returned hash includes that byte) */ \
@@ -60,22 +63,86 @@ uint64_t *g_t1, *g_t2; /* the state's tables */
                                          __CPROVER_return_value == g_H[VF_B + *idx + 1]))          \
         __CPROVER_ensures(!VF_RU_HIT ==> __CPROVER_return_value == g_H[VF_B + *idx])               \
         /* every position consumed extends the hash stream by the rolling step ... */             \
-        __CPROVER_ensures(VF_IN(VF_B + __CPROVER_old(*idx), g_k, VF_B + (int64_t) *idx + (VF_RU_HIT ? 1 : 0)) ==> VF_DEF(g_buf, g_k)) \
+        __CPROVER_ensures(VF_IN(VF_B + __CPROVER_old(*idx), g_k, VF_B + (int64_t) *idx) ==> VF_DEF(g_buf, g_k)) \
+        __CPROVER_ensures((VF_RU_HIT && g_k == VF_B + (int64_t) *idx) ==> VF_DEF(g_buf, g_k))     \
         /* ... and nothing before *idx was a hit */                                                \
         __CPROVER_ensures(VF_IN(VF_B + __CPROVER_old(*idx), g_k, VF_B + (int64_t) *idx) ==> (g_H[g_k + 1] & mask) != trigger)
 
 #define VF_L_RUN_UNTIL                                                                             \
-        __CPROVER_assigns(i, h, __CPROVER_object_from(&g_H[VF_B + (int64_t) vf_i0 + 1]))           \
+        __CPROVER_assigns(i, h, __CPROVER_object_whole(g_H))                                       \
+        __CPROVER_loop_invariant((g_k >= 0 && g_k + 1 <= VF_B + (int64_t) vf_i0) ==>               \
+                                 (g_H[g_k] == __CPROVER_loop_entry(g_H[g_k]) && g_H[g_k + 1] == __CPROVER_loop_entry(g_H[g_k + 1]))) \
         __CPROVER_loop_invariant((int64_t) i >= (int64_t) vf_i0 &&                                 \
                                  (int64_t) i <= VF_MAXI((int64_t) vf_i0, (int64_t) max_idx))       \
         __CPROVER_loop_invariant(h == g_H[VF_B + i])                                               \
         __CPROVER_loop_invariant(VF_IN(VF_B + vf_i0, g_k, VF_B + i) ==> (VF_DEF(g_buf, g_k) && (g_H[g_k + 1] & mask) != trigger)) \
         __CPROVER_decreases((int64_t) max_idx - (int64_t) i)
 
+/* the first loop of _rolling_hash2_run (old bytes come from the history): loop contract.  The body writes the
+ * history only on paths that return, so on every path that stays in the loop the history still equals the
+ * snapshot - stated for all 48 bytes explicitly (no quantifier). */
+#define VF_HISTEQ                                                                                  \
+        (state->history[0] == g_hist0[0] && \
+         state->history[1] == g_hist0[1] && \
+         state->history[2] == g_hist0[2] && \
+         state->history[3] == g_hist0[3] && \
+         state->history[4] == g_hist0[4] && \
+         state->history[5] == g_hist0[5] && \
+         state->history[6] == g_hist0[6] && \
+         state->history[7] == g_hist0[7] && \
+         state->history[8] == g_hist0[8] && \
+         state->history[9] == g_hist0[9] && \
+         state->history[10] == g_hist0[10] && \
+         state->history[11] == g_hist0[11] && \
+         state->history[12] == g_hist0[12] && \
+         state->history[13] == g_hist0[13] && \
+         state->history[14] == g_hist0[14] && \
+         state->history[15] == g_hist0[15] && \
+         state->history[16] == g_hist0[16] && \
+         state->history[17] == g_hist0[17] && \
+         state->history[18] == g_hist0[18] && \
+         state->history[19] == g_hist0[19] && \
+         state->history[20] == g_hist0[20] && \
+         state->history[21] == g_hist0[21] && \
+         state->history[22] == g_hist0[22] && \
+         state->history[23] == g_hist0[23] && \
+         state->history[24] == g_hist0[24] && \
+         state->history[25] == g_hist0[25] && \
+         state->history[26] == g_hist0[26] && \
+         state->history[27] == g_hist0[27] && \
+         state->history[28] == g_hist0[28] && \
+         state->history[29] == g_hist0[29] && \
+         state->history[30] == g_hist0[30] && \
+         state->history[31] == g_hist0[31] && \
+         state->history[32] == g_hist0[32] && \
+         state->history[33] == g_hist0[33] && \
+         state->history[34] == g_hist0[34] && \
+         state->history[35] == g_hist0[35] && \
+         state->history[36] == g_hist0[36] && \
+         state->history[37] == g_hist0[37] && \
+         state->history[38] == g_hist0[38] && \
+         state->history[39] == g_hist0[39] && \
+         state->history[40] == g_hist0[40] && \
+         state->history[41] == g_hist0[41] && \
+         state->history[42] == g_hist0[42] && \
+         state->history[43] == g_hist0[43] && \
+         state->history[44] == g_hist0[44] && \
+         state->history[45] == g_hist0[45] && \
+         state->history[46] == g_hist0[46] && \
+         state->history[47] == g_hist0[47])
+#define VF_L_RUN0                                                                                  \
+        __CPROVER_assigns(i, hash, __CPROVER_object_whole(g_H), state->history, state->hash, *offset) \
+        __CPROVER_loop_invariant(i <= g_w && i <= buffer_length && hash == g_H[i])                 \
+        __CPROVER_loop_invariant(g_H[0] == __CPROVER_loop_entry(g_H[0]))                           \
+        __CPROVER_loop_invariant(VF_HISTEQ)                                                        \
+        __CPROVER_loop_invariant(VF_IN(0, g_k, i) ==> (VF_DEF(g_buf, g_k) && (g_H[g_k + 1] & mask) != trigger)) \
+        __CPROVER_decreases((int64_t) g_w - (int64_t) i)
+
 /* the piecewise scan loop of _rolling_hash2_run (entered with i == w) */
 #define VF_L_RUN                                                                                   \
-        __CPROVER_assigns(i, hash, __CPROVER_object_from(&g_H[g_w + 1]))                           \
+        __CPROVER_assigns(i, hash, g_base, __CPROVER_object_whole(g_H))                            \
         __CPROVER_loop_invariant(i >= g_w && i <= buffer_length && hash == g_H[i])                 \
+        __CPROVER_loop_invariant(g_H[0] == __CPROVER_loop_entry(g_H[0]))                           \
         __CPROVER_loop_invariant(VF_IN(0, g_k, i) ==> (VF_DEF(g_buf, g_k) && (g_H[g_k + 1] & mask) != trigger)) \
         __CPROVER_decreases((int64_t) buffer_length - (int64_t) i)
 
@@ -118,7 +185,9 @@ VF_C_RUN_UNTIL
         __CPROVER_requires(buffer == g_buf && buffer_length == g_len)      \
         __CPROVER_requires(state->table1 == g_t1 && state->table2 == g_t2)                         \
         __CPROVER_requires(state->hash == g_H[0]) /* hash of the last w bytes seen so far */       \
-        __CPROVER_assigns(state->hash, state->history, *offset, __CPROVER_object_from(&g_H[1]))    \
+        __CPROVER_requires(g_k >= 0 && g_k <= (int64_t) g_len) /* domain of the witness position */ \
+        __CPROVER_assigns(state->hash, state->history, *offset, g_base, __CPROVER_object_whole(g_H)) \
+        __CPROVER_ensures(g_H[0] == __CPROVER_old(g_H[0]))                                         \
         __CPROVER_ensures(__CPROVER_return_value == VF_RET_HIT || __CPROVER_return_value == VF_RET_MAX) \
         __CPROVER_ensures(*offset <= buffer_length)                                                \
         __CPROVER_ensures(__CPROVER_return_value == VF_RET_MAX ==> *offset == buffer_length)       \
@@ -140,14 +209,19 @@ uint8_t *g_histbase; /* == state->history */
         (__CPROVER_same_object(g_dw, (dst)) && __CPROVER_POINTER_OFFSET(g_dw) >= __CPROVER_POINTER_OFFSET(dst) && \
          __CPROVER_POINTER_OFFSET(g_dw) < __CPROVER_POINTER_OFFSET(dst) + (n))
 #define VF_DW_OFF(dst) (__CPROVER_POINTER_OFFSET(g_dw) - __CPROVER_POINTER_OFFSET(dst))
+/* Frames: the WHOLE 48-byte history array (constant size: cheap to havoc; a run-time-length slice is not);
+ * the witness byte is either the copied byte or keeps its value. */
+#define VF_IN_HIST(dst, n)                                                                         \
+        (__CPROVER_same_object(dst, g_histbase) && __CPROVER_POINTER_OFFSET(dst) >= __CPROVER_POINTER_OFFSET(g_histbase) && \
+         __CPROVER_POINTER_OFFSET(dst) - __CPROVER_POINTER_OFFSET(g_histbase) + (n) <= 48)
 void *
 memcpy(void *dst, const void *src, size_t n)
         /* clang-format off */
-__CPROVER_requires(n <= 48 && __CPROVER_r_ok(src, n) && __CPROVER_w_ok(dst, n))
+__CPROVER_requires(n <= 48 && __CPROVER_r_ok(src, n) && __CPROVER_w_ok(dst, n) && VF_IN_HIST(dst, n))
 __CPROVER_requires(!__CPROVER_same_object(dst, src)) /* every memcpy of this file copies between different objects */
-__CPROVER_assigns(__CPROVER_object_upto(dst, n))
+__CPROVER_assigns(__CPROVER_object_upto(g_histbase, 48))
 __CPROVER_ensures(__CPROVER_return_value == dst)
-__CPROVER_ensures(VF_DW_IN(dst, n) ==> *g_dw == ((const uint8_t *) src)[VF_DW_OFF(dst)])
+__CPROVER_ensures(VF_DW_IN(dst, n) ? *g_dw == ((const uint8_t *) src)[VF_DW_OFF(dst)] : *g_dw == __CPROVER_old(*g_dw))
         /* clang-format on */
         ;
 /* the only memmove of this file shifts the history down: src = history + i, dst = history */
@@ -157,10 +231,10 @@ memmove(void *dst, const void *src, size_t n)
 __CPROVER_requires(n <= 48 && __CPROVER_r_ok(src, n) && __CPROVER_w_ok(dst, n))
 __CPROVER_requires(dst == (void *) g_histbase && __CPROVER_same_object(src, g_histbase) &&
                    __CPROVER_POINTER_OFFSET(src) - __CPROVER_POINTER_OFFSET(g_histbase) + n <= 48)
-__CPROVER_assigns(__CPROVER_object_upto(dst, n))
+__CPROVER_assigns(__CPROVER_object_upto(g_histbase, 48))
 __CPROVER_ensures(__CPROVER_return_value == dst)
 /* g_hist0 is the history on entry of _rolling_hash2_run, which does not write it before this call */
-__CPROVER_ensures(VF_DW_IN(dst, n) ==>
-                  *g_dw == g_hist0[(__CPROVER_POINTER_OFFSET(src) - __CPROVER_POINTER_OFFSET(g_histbase)) + VF_DW_OFF(dst)])
+__CPROVER_ensures(VF_DW_IN(dst, n) ? *g_dw == g_hist0[(__CPROVER_POINTER_OFFSET(src) - __CPROVER_POINTER_OFFSET(g_histbase)) + VF_DW_OFF(dst)]
+                                   : *g_dw == __CPROVER_old(*g_dw))
         /* clang-format on */
         ;
